@@ -357,11 +357,21 @@ def match_host_library_facts(c):
             z3.Implies(no_comma(a), split_commas(joined) == a)]
 
 
+def host_line_post(c):
+    return c.new('_matching') == host_line(c.arg('args'), P.py_str(c.old('_orig_host')))
+
+
+# Two clauses, so that the recorded comma defect (F-C18-2) does not hide anything else about the Host rule: for
+# arguments without commas the rule must hold as it is (value matched = the ORIGINAL host, patterns as written - no
+# case folding, no Hostname rewrite); the second clause is the comma case alone and is refuted on the current tree.
 match_host = Spec(
     PROP, 'config', 'SSHClientConfig._match_host', self_class='SSHClientConfig', classes=PAT_CLASSES,
-    params={'option': 'str', 'args': 'seq[str]'}, stubs=dict(PAT_STUBS), lemmas=match_host_library_facts,
-    ensures=[('matching-iff-some-argument-pattern-matches-and-no-negated-one',
-              lambda c: c.new('_matching') == host_line(c.arg('args'), P.py_str(c.old('_orig_host')))),
+    params={'option': 'str', 'args': 'seq[str]'}, lemmas=match_host_library_facts,
+    stubs=dict(PAT_STUBS, **{'self._match_val': contract_stub(lambda: client_match_val_spec)}),
+    ensures=[('host-rule-on-comma-free-arguments',
+              lambda c: z3.Implies(no_comma(c.arg('args')), host_line_post(c))),
+             ('comma-in-an-argument-is-an-ordinary-character',
+              lambda c: z3.Implies(z3.Not(no_comma(c.arg('args'))), host_line_post(c))),
              ('consumes-its-arguments', lambda c: z3.Length(c.local('args')) == 0),
              ('options-kept', options_kept), ('tokens-kept', tokens_kept)])
 
@@ -610,24 +620,74 @@ def unfold_match_all(c, a, role):
                                                                z3.Extract(a, 2, n - 2)))))
 
 
+# Match final: the criterion is false in the first pass, but having met it the config must remember that a final pass
+# is wanted (has_match_final); mentions_final(args) = some criterion of the line is `final` (negated or not).
+# Rejection: a Match line is rejected iff it is not well formed - a criterion keyword this role does not know, a
+# criterion without its pattern, or `localnetwork` without the ifaddr module.  Both are recursive over the argument
+# list like match_all (definitional unfoldings only).
+mentions_final = z3.Function('match_line_mentions_final', SEQSTR, BoolS)
+well_formed = z3.Function('match_line_well_formed', SEQSTR, BoolS)
+IFADDR = z3.Bool('ifaddr_available')
+
+
+def _criterion_head(a):
+    raw = lower(a[0])
+    neg = z3.SubString(raw, 0, 1) == S('!')
+    kw = z3.If(neg, z3.SubString(raw, 1, z3.Length(raw) - 1), raw)
+    return neg, kw, one_of(kw, 'all', 'canonical', 'final')
+
+
+def unfold_line_facts(c, a, role):
+    n = z3.Length(a)
+    _neg, kw, noarg = _criterion_head(a)
+    rest = z3.If(noarg, z3.Extract(a, 1, n - 1), z3.Extract(a, 2, n - 2))
+    mv = client_match_val(c, kw) if role == 'client' else server_match_val(c, kw)
+    known = z3.And(z3.Or(kw == S('exec'), mv != P.py_none), z3.Or(kw != S('localnetwork'), IFADDR))
+    return [z3.If(n == 0, z3.Not(mentions_final(a)), mentions_final(a) == z3.Or(kw == S('final'), mentions_final(rest))),
+            z3.If(n == 0, well_formed(a),
+                  well_formed(a) == z3.And(z3.Or(noarg, z3.And(known, n >= 2)), well_formed(rest)))]
+
+
+def final_marked(v):
+    return z3.Not(v.isnone) if isinstance(v, VOpt) else z3.BoolVal(v is not VNone)
+
+
 def match_inv(c):
-    return z3.And(match_all(c.arg('args')) == z3.And(c.local('matching'), match_all(c.local('args'))),
-                  final_true(c.newv('_final')) == final_true(c.oldv('_final')))
+    a0, a = c.arg('args'), c.local('args')
+    marked_now, marked_before = final_marked(c.newv('_final')), final_marked(c.oldv('_final'))
+    return z3.And(match_all(a0) == z3.And(c.local('matching'), match_all(a)),
+                  final_true(c.newv('_final')) == final_true(c.oldv('_final')),
+                  z3.Or(marked_now, mentions_final(a0) == mentions_final(a)),
+                  z3.Implies(z3.And(marked_now, z3.Not(marked_before)), mentions_final(a0)),
+                  z3.Implies(marked_before, marked_now),
+                  well_formed(a0) == well_formed(a))
 
 
 def match_lemmas(role):
-    """definitional instances of match_all: the base case at the current list, and - at the end of an iteration
-    only - one unfolding at the list the iteration started with"""
+    """definitional instances of match_all / mentions_final / well_formed: the base case at the current list, and
+    - from the first statement of an iteration on - one unfolding at the list the iteration started with"""
     def lemmas(c):
         head = getattr(c, 'head', None) or c.new_state
         cur = c.new_state.env['args'].z
-        out = [z3.Implies(z3.Length(cur) == 0, match_all(cur))]
-        if not cur.eq(head.env['args'].z):
-            out.append(unfold_match_all(c, head.env['args'].z, role))
+        ha = head.env['args'].z
+        out = [z3.Implies(z3.Length(cur) == 0, z3.And(match_all(cur), z3.Not(mentions_final(cur)), well_formed(cur)))]
+        if cur.eq(ha):
+            c.new_state.heap['__c18_head_args__'] = ha        # for the raise outcomes of this iteration
+        else:
+            out.append(unfold_match_all(c, ha, role))
+            out += unfold_line_facts(c, ha, role)
         if c.has_local('host_pat') and not c.has_local('ip') and c.has_local('arg'):
             out.append(localnet_def(c.local('arg')))      # end of an iteration that evaluated `localnetwork`
         return out
     return lemmas
+
+
+def match_outcome_lemmas(c):
+    """a rejection happens inside an iteration: unfold the line facts at the list that iteration started with"""
+    ha = c.new_state.heap.get('__c18_head_args__')
+    if c.raised is None or ha is None:
+        return []
+    return unfold_line_facts(c, ha, role_of(c)) + [z3.Length(ha) > 0]
 
 
 def error_stub(cx):
@@ -667,7 +727,7 @@ match = Spec(
     PROP, 'config', 'SSHConfig._match', self_class='SSHAnyConfig', classes=ANY_CLASSES,
     params={'option': 'str', 'args': 'seq[str]'},
     cases=[('client', {'ghost_is_client': True}), ('server', {'ghost_is_client': False})],
-    globals={'_ifaddr_available': VBool(z3.Bool('ifaddr_available'))},
+    globals={'_ifaddr_available': VBool(IFADDR)}, lemmas=match_outcome_lemmas,
     stubs=dict(PAT_STUBS, **{'self._error': error_stub, '_exec': exec_stub, 'self._match_val': match_val_dispatch,
                              'ip_address': ret('opaque:IP', 'ip')}),
     loops={1: LoopSpec(header='args', invariant=match_inv, modifies=['_final'],
@@ -676,8 +736,16 @@ match = Spec(
     local_types={'match_val': 'pyobj'},
     ensures=[('matching-iff-every-criterion-holds', lambda c: c.new('_matching') == match_all(c.arg('args'))),
              ('consumes-its-arguments', lambda c: z3.Length(c.local('args')) == 0),
+             ('final-criterion-is-remembered-for-has_match_final',
+              lambda c: z3.Implies(mentions_final(c.arg('args')), final_marked(c.newv('_final')))),
+             ('final-state-kept-unless-final-is-mentioned',
+              lambda c: z3.And(final_true(c.newv('_final')) == final_true(c.oldv('_final')),
+                               z3.Implies(z3.Not(mentions_final(c.arg('args'))),
+                                          final_marked(c.newv('_final')) == final_marked(c.oldv('_final'))))),
+             ('accepted-only-if-well-formed', lambda c: well_formed(c.arg('args'))),
              ('options-kept', options_kept), ('tokens-kept', tokens_kept)],
-    raises={'ConfigParseError': lambda c: z3.And(options_kept(c), tokens_kept(c))})
+    raises={'ConfigParseError': lambda c: z3.And(z3.Not(well_formed(c.arg('args'))), options_kept(c),
+                                                 tokens_kept(c))})
 match.pop_front_witness = True
 
 
@@ -858,7 +926,11 @@ def expand_setup(ex, st):
 # ghost_expanded = the options whose current value is already the result of an expansion (by an earlier parse() on
 # this map).  Such a value must not be expanded again: '%%h' would become '%h' and then the host name, and a token or
 # environment VALUE containing '%' or '${' (on the server: the remote user name) would be re-interpreted.
-EXPAND_CLASSES = {'SSHConfig': dict(CFG_FIELDS, ghost_expanded='dict[str,bool]')}
+# ghost_config_complete = this parse() call is the last thing the load reads (no further line, file or Include
+# follows).  ssh expands a value when it is used, i.e. with the tokens of the FINAL option map (Hostname / User / Port
+# set after an Include count); so nothing may be expanded while the configuration is still being read - a repair
+# that merely skips already-expanded values would freeze the early tokens and still fail this clause.
+EXPAND_CLASSES = {'SSHConfig': dict(CFG_FIELDS, ghost_expanded='dict[str,bool]', ghost_config_complete='bool')}
 
 
 def expanded_once(c):
@@ -873,7 +945,9 @@ parse_expand = Spec(
     cases=[('expand-one-option', {})],
     ensures=[('value-expanded-in-place', expand_one_post),
              ('tokens-and-matching-kept', lambda c: z3.And(tokens_kept(c), c.new('_matching') == c.old('_matching')))],
-    always=[('already-expanded-value-is-not-expanded-again', expanded_once)],
+    always=[('already-expanded-value-is-not-expanded-again', expanded_once),
+            ('values-are-expanded-only-when-the-whole-configuration-is-read',
+             lambda c: z3.Implies(z3.Not(c.old('ghost_config_complete')), options_kept(c)))],
     raises={'ConfigParseError': expand_one_error})
 parse_expand.no_replay = True
 parse_expand.map_comprehensions = True
@@ -972,6 +1046,15 @@ ASSUMPTIONS += [
     '_include: pathlib / glob / is_file are assumed (the files a pattern matches, in glob order); parse() of an '
     'included file is an assumed havoc of the resolution state; client _set_tokens: socket.gethostname, '
     'os.path.expanduser, os.getuid and sha1 are assumed functions, str.find uses the engine quantifier-free model',
+    'pass structure: load() is verified for a list of path strings (the single str / PurePath form is not); '
+    '"copy, not alias" of option maps is checked on engine value identity plus the ghost event dict_copy; the '
+    'connection.py call sites are checked as data (argument names) and by one native options-level case',
+    'known disagreements with ssh that are recorded, not repaired (each has its own obligation): Host a,b; trailing '
+    '# comment; double / premature expansion; "=" after a verbatim keyword; quoted "=" in Match exec; the final pass '
+    'restarts from the base options instead of keeping first-pass values; Match canonical is false in the final '
+    'pass; Match host patterns are not lower-cased.  The generated ssh -G sample avoids exactly these forms',
+    'unsafe user: a name such as "${X" completes an environment reference only together with a "}" from the '
+    'configured template; outside the advisory language, not claimed',
     'expand_val_term_stub restates the proved contract of _expand_val with the result as an explicit term (needed '
     'by the map-comprehension model, which cannot use fresh result symbols)',
 ]
@@ -1091,6 +1174,197 @@ client_set_tokens = Spec(
 client_set_tokens.no_replay = True       # reads the real host name / uid / home directory
 
 
+
+# ------------------------------------------------------------------ pass structure: constructors, get_options, load
+# connection.py resolves a config in passes on ONE chain of config objects: pass 1 load(None | base, paths, reload=False,
+# canonical=False, final=False, ...); if the host was canonicalised or the config asked for it (has_match_final) a
+# further pass load(previous, paths, reload=True, canonical, final, ...).  What the pieces must do for that to work:
+#   __init__      takes its flags unswapped (final -> tri-state True / not-yet-asked), starts matching, starts from a
+#                 COPY of previous.get_options(reload) (or nothing), the caller's user / port override what was inherited
+#   get_options   reload: what this object itself started from, else what it resolved - as a copy
+#   has_match_final  a `Match final` was met (or this is the final pass)
+#   load          constructs with the arguments in order and parses the paths in order
+# Dicts are values in the model; "copy, not alias" is checked on the engine's value identity plus the ghost event
+# dict_copy (an aliased map would share one engine value).
+PASS_FIELDS = dict(CFG_FIELDS, _last_options='dict[str,pyobj]', loaded='bool')
+PASS_CLIENT = dict(PASS_FIELDS, _local_user='str', _orig_host='str')
+PASS_SERVER = dict(PASS_FIELDS, _local_addr='str', _local_port='int', _user='str', _host='str', _addr='str')
+PASS_CLASSES = {'SSHConfig': PASS_FIELDS, 'SSHClientConfig': PASS_CLIENT, 'SSHServerConfig': PASS_SERVER,
+                'PathObj': {'anchor': 'str', 'parts': 'seq[str]'}}
+EMPTY_DOM = z3.K(StrS, z3.BoolVal(False))
+EMPTY_VAL = z3.K(StrS, P.py_none)
+
+
+def map_terms(c, v, st=None):
+    """(dom, val) arrays of a dict value: symbolic map as is, concrete dict display built up from the empty map"""
+    v = c.ex.deref(st or c.new_state, v)
+    if isinstance(v, VMap):
+        return v.dom, v.val
+    dom, val = EMPTY_DOM, EMPTY_VAL
+    for k, x in v.items.items():
+        dom, val = z3.Store(dom, S(k), True), z3.Store(val, S(k), py_inject(c.ex.deref(st or c.new_state, x)))
+    return dom, val
+
+
+def same_object(c, a, b):
+    if isinstance(a, VRef) and isinstance(b, VRef):
+        return a.addr == b.addr
+    return a is b
+
+
+get_options_spec = Spec(
+    PROP, 'config', 'SSHConfig.get_options', self_class='SSHConfig', classes=PASS_CLASSES, params={'reload': 'bool'},
+    returns='dict[str,pyobj]', modifies=[],
+    ensures=[('reload-gives-what-this-config-started-from-else-what-it-resolved', lambda c: z3.And(
+                 map_terms(c, c.result_v)[0] == z3.If(c.arg('reload'), c.oldv('_last_options').dom, c.oldv('_options').dom),
+                 map_terms(c, c.result_v)[1] == z3.If(c.arg('reload'), c.oldv('_last_options').val, c.oldv('_options').val))),
+             ('result-is-a-copy', lambda c: z3.BoolVal(
+                 len(c.events('dict_copy')) == 1 and not same_object(c, c.result_v, c.newv('_options'))
+                 and not same_object(c, c.result_v, c.newv('_last_options'))))])
+
+has_match_final_spec = Spec(
+    PROP, 'config', 'SSHConfig.has_match_final', self_class='SSHConfig', classes=PASS_CLASSES, returns='bool', modifies=[],
+    ensures=[('true-iff-a-final-pass-was-asked-for-or-is-running',
+              lambda c: c.result == final_marked(c.oldv('_final')))])
+
+
+def inherited(c):
+    """(dom, val) the new object starts from: previous.get_options(reload), or nothing"""
+    lc = c.argv('last_config')
+    if lc is VNone:
+        return EMPTY_DOM, EMPTY_VAL
+    ref = lc.val if isinstance(lc, VOpt) else lc
+    o = c.ex.get_field(c.old_state, ref, '_options')
+    lo = c.ex.get_field(c.old_state, ref, '_last_options')
+    dom, val = z3.If(c.arg('reload'), lo.dom, o.dom), z3.If(c.arg('reload'), lo.val, o.val)
+    if isinstance(lc, VOpt):
+        return z3.If(lc.isnone, EMPTY_DOM, dom), z3.If(lc.isnone, EMPTY_VAL, val)
+    return dom, val
+
+
+def init_flags(c):
+    return z3.And(c.new('_canonical') == c.arg('canonical'),
+                  final_true(c.newv('_final')) == c.arg('final'), final_marked(c.newv('_final')) == c.arg('final'),
+                  c.new('_matching'), z3.Not(c.new('loaded')))
+
+
+def init_started_from(c):
+    dom, val = inherited(c)
+    ld, lv = map_terms(c, c.newv('_last_options'))
+    return z3.And(ld == dom, lv == val)
+
+
+def init_options(overrides):
+    def post(c):
+        dom, val = inherited(c)
+        for key, arg in overrides:
+            given = py_inject(c.argv(arg)) != P.py_tuple0
+            dom = z3.If(given, z3.Store(dom, S(key), True), dom)
+            val = z3.If(given, z3.Store(val, S(key), py_inject(c.argv(arg))), val)
+        od, ov = map_terms(c, c.newv('_options'))
+        return z3.And(od == dom, ov == val)
+    return post
+
+
+def init_not_aliased(c):
+    return z3.BoolVal(not same_object(c, c.newv('_options'), c.newv('_last_options'))
+                      and len(c.events('dict_copy')) >= 1)
+
+
+def tokens_empty(c):
+    return map_terms(c, c.newv('_tokens'))[0] == EMPTY_DOM
+
+
+INIT_STUBS = {'last_config.get_options': contract_stub(lambda: get_options_spec), 'Path': new_path_stub,
+              'PathObj.expanduser': new_path_stub}
+INIT_PARAMS = {'last_config': 'opt[obj:SSHConfig]', 'reload': 'bool', 'canonical': 'bool', 'final': 'bool'}
+INIT_COMMON = [('flags-reach-the-parser-unswapped', init_flags),
+               ('starts-from-the-previous-config-or-nothing', init_started_from),
+               ('option-map-is-a-copy-not-an-alias', init_not_aliased), ('no-tokens-yet', tokens_empty)]
+
+base_init = Spec(
+    PROP, 'config', 'SSHConfig.__init__', self_class='SSHConfig', classes=PASS_CLASSES, params=dict(INIT_PARAMS),
+    stubs=dict(INIT_STUBS), ensures=INIT_COMMON + [('options-are-the-inherited-ones', init_options([]))])
+
+client_init = Spec(
+    PROP, 'config', 'SSHClientConfig.__init__', self_class='SSHClientConfig', classes=PASS_CLASSES,
+    params=dict(INIT_PARAMS, local_user='str', user='pyobj', host='str', port='pyobj'),
+    stubs=dict(INIT_STUBS), inline={'super().__init__': ('config', 'SSHConfig.__init__')},
+    ensures=INIT_COMMON + [
+        ('caller-user-and-port-override-what-was-inherited', init_options([('User', 'user'), ('Port', 'port')])),
+        ('local-user-and-original-host-are-the-arguments',
+         lambda c: z3.And(c.new('_local_user') == c.arg('local_user'), c.new('_orig_host') == c.arg('host')))])
+
+server_init = Spec(
+    PROP, 'config', 'SSHServerConfig.__init__', self_class='SSHServerConfig', classes=PASS_CLASSES,
+    params=dict(INIT_PARAMS, local_addr='str', local_port='int', user='str', host='str', addr='str'),
+    stubs=dict(INIT_STUBS), inline={'super().__init__': ('config', 'SSHConfig.__init__')},
+    ensures=INIT_COMMON + [
+        ('options-are-the-inherited-ones', init_options([])),
+        ('connection-facts-are-the-arguments',
+         lambda c: z3.And(c.new('_local_addr') == c.arg('local_addr'), c.new('_local_port') == c.arg('local_port'),
+                          c.new('_user') == c.arg('user'), c.new('_addr') == c.arg('addr'),
+                          c.new('_host') == z3.If(z3.Length(c.arg('host')) > 0, c.arg('host'), c.arg('addr'))))])
+for _sp in (base_init, client_init, server_init):
+    _sp.no_replay = True          # constructors: the native harness builds objects without running __init__
+
+# load(): `cls` is the receiver; ghosts on it record the constructor call and the files parsed
+LOAD_CLASSES = {'LoadCls': {'ghost_parsed': 'seq[str]'}, 'Loaded': {'loaded': 'bool'}, 'Prev': {},
+                'PathObj': {'text': 'str'}}
+
+
+def ctor_stub(cx):
+    ref = cx.st.alloc(Record('Loaded', {'loaded': VBool(False)}), 'Loaded')
+    return [Out(ret=ref, event=('ctor', tuple(cx.args)))]
+
+
+def path_of_text_stub(cx):
+    return [Out(ret=cx.st.alloc(Record('PathObj', {'text': cx.args[0]}), 'PathObj'))]
+
+
+def load_parse_stub(cx):
+    text = cx.ex.get_field(cx.st, cx.args[0], 'text')
+    seen = cx.selff('ghost_parsed')
+    nv = VSeq(z3.Concat(seen.z, z3.Unit(text.z)), 'str')
+    return [Out(osets=[(cx.ex.self_ref, 'ghost_parsed', nv)]),
+            Out(osets=[(cx.ex.self_ref, 'ghost_parsed', nv)], exc=VExc('ConfigParseError')),
+            Out(osets=[(cx.ex.self_ref, 'ghost_parsed', nv)], exc=VExc('OSError'))]
+
+
+ctor_stub.modifies = ()
+path_of_text_stub.modifies = ()
+load_parse_stub.modifies = ('ghost_parsed',)
+
+
+def load_ctor_args(c):
+    evs = c.events('ctor')
+    if len(evs) != 1:
+        return z3.BoolVal(False)
+    got = evs[0][1]
+    want = [c.argv('last_config'), c.argv('reload'), c.argv('canonical'), c.argv('final')]
+    if len(got) != 5 or not (isinstance(got[4], tuple) and got[4][0] == 'star'):
+        return z3.BoolVal(False)
+    return z3.And([c.eq(g, w) for g, w in zip(got[:4], want)] + [got[4][1].z == c.arg('args')])
+
+
+load_spec = Spec(
+    PROP, 'config', 'SSHConfig.load', self_class='LoadCls', classes=LOAD_CLASSES,
+    params={'last_config': 'opt[obj:Prev]', 'config_paths': 'seq[str]', 'reload': 'bool', 'canonical': 'bool',
+            'final': 'bool', 'args': 'seq[pyobj]'},
+    globals={'PurePath': VTag('class:PurePath')},
+    stubs={'cls': ctor_stub, 'Path': path_of_text_stub, 'Loaded.parse': load_parse_stub},
+    loops={1: LoopSpec(header='for path in paths', invariant=lambda c: c.new('ghost_parsed') == z3.Concat(
+        c.old('ghost_parsed'), z3.Extract(c.extra['iter'].z, 0, c.extra['i'])))},
+    ensures=[('constructed-with-the-arguments-in-order', load_ctor_args),
+             ('paths-are-parsed-in-order', lambda c: c.new('ghost_parsed') == z3.Concat(c.old('ghost_parsed'),
+                                                                                      c.arg('config_paths'))),
+             ('returns-the-new-config-marked-loaded-iff-something-was-read',
+              lambda c: z3.And(z3.BoolVal(isinstance(c.result_v, VRef) and c.new_state.rec(c.result_v).cls == 'Loaded'),
+                               c.new('loaded', c.result_v) == (z3.Length(c.arg('config_paths')) > 0)))],
+    raises={'ConfigParseError': True, 'OSError': True})
+load_spec.no_replay = True        # classmethod verified with `cls` as the receiver object
+
+
 # ------------------------------------------------------------------ data tables (checked on the source text, AST)
 # keyword -> kind of argument, from ssh_config(5) / sshd_config(5) (flag = yes/no, int, string = one argument that may
 # be `none`, list = all arguments / first directive wins, acc = every directive adds, acclist = every directive adds
@@ -1128,6 +1402,8 @@ SERVER_SPECIAL = {'Match': '_match', 'Include': '_include', 'AddressFamily': '_s
                   'CanonicalizeHostname': '_set_canonicalize_host', 'RekeyLimit': '_set_rekey_limits'}
 # asyncssh docs/api.rst "These expansions are available in the values of the following config options"
 DOC_EXPANDED_CLIENT = {'CertificateFile', 'IdentityAgent', 'IdentityFile', 'RemoteCommand'}
+# ssh_config(5) TOKENS: "ProxyCommand, ProxyJump accept the tokens %%, %h, %n, %p, and %r" - required as well
+MAN_EXPANDED_CLIENT = {'ProxyCommand'}
 # further keywords whose argument ssh itself expands (ssh_config(5) TOKENS: ProxyCommand) or that name an agent socket
 # path exactly like IdentityAgent (ForwardAgent): allowed in the table, nothing else is
 MAY_EXPAND_CLIENT = DOC_EXPANDED_CLIENT | {'ProxyCommand', 'ForwardAgent'}
@@ -1193,7 +1469,8 @@ def _expand_lemma():
         s_ = _set_attr('SSHConfig', '_percent_expand')       # inherited by the server class
     if c is None or s_ is None:
         return ['_percent_expand tables not found']
-    bad += [f'client {k}: documented as token-expanded but not in _percent_expand' for k in sorted(DOC_EXPANDED_CLIENT - c)]
+    bad += [f'client {k}: documented as token-expanded but not in _percent_expand'
+            for k in sorted((DOC_EXPANDED_CLIENT | MAN_EXPANDED_CLIENT) - c)]
     bad += [f'client {k}: expanded although neither asyncssh nor ssh documents tokens for it'
             for k in sorted(c - MAY_EXPAND_CLIENT)]
     if s_ != DOC_EXPANDED_SERVER:
@@ -1215,6 +1492,90 @@ def _block_lemma():
     return bad
 
 
+def _scan_tokens(text):
+    """reference scanner for '%x': left to right, a '%' followed by any one character (not a newline) is a reference
+    to token x and both characters are consumed"""
+    out, i = [], 0
+    while i < len(text):
+        if text[i] == '%' and i + 1 < len(text) and text[i + 1] != '\n':
+            out.append((i, i + 2, text[i + 1]))
+            i += 2
+        else:
+            i += 1
+    return out
+
+
+def _scan_env(text):
+    """reference scanner for '${NAME}': left to right, '${' up to the NEXT '}' (NAME may be empty, no newline)"""
+    out, i = [], 0
+    while i < len(text):
+        if text.startswith('${', i):
+            j = text.find('}', i + 2)
+            if j >= 0 and '\n' not in text[i + 2:j]:
+                out.append((i, j + 1, text[i + 2:j]))
+                i = j + 1
+                continue
+        i += 1
+    return out
+
+
+def _regex_lemma():
+    """_token_pattern / _env_pattern (the source text, compiled here) find exactly the references of the reference
+    scanners on every string over {% $ { } a /} up to length 6 and on a few longer ones"""
+    import itertools
+    import re as _re
+    from pyvc import extract, regex_model
+    nodes = extract.get_module('config').consts.get('__nodes__', {})
+    bad = []
+    for name, scan in (('_token_pattern', _scan_tokens), ('_env_pattern', _scan_env)):
+        pat = regex_model.pattern_of_node(nodes.get(name)) if nodes.get(name) is not None else None
+        if pat is None:
+            bad.append(f'{name} is not a module-level re.compile(<literal>) without flags')
+            continue
+        rx = _re.compile(pat)
+        if rx.groups != 1:
+            bad.append(f'{name}: the expansion callbacks read group(1), the pattern has {rx.groups} groups')
+            continue
+        corpus = (''.join(t) for n in range(7) for t in itertools.product('%${}a/', repeat=n))
+        extra = ['${A}/x/${B}', '%h%%%p', '100%', '${A', '$A}', '%{a}', '${a${b}}', 'x%\ny', '${a\nb}']
+        for text in itertools.chain(corpus, extra):
+            got = [(m.start(), m.end(), m.group(1)) for m in rx.finditer(text)]
+            if got != scan(text):
+                bad.append(f'{name} {pat!r} on {text!r}: finds {got}, references are {scan(text)}')
+                break
+    return bad
+
+
+def _call_site_lemma():
+    """connection.py hands the config constructors their arguments in the constructor's own order and roles:
+    SSHClientConfig.load(last_config, config, reload, canonical, final, <local user>, <remote user>, host, port)"""
+    from pyvc import extract
+    want = {'SSHClientConfig': ['last_config', 'config', 'reload', 'canonical', 'final', 'local_username', 'username',
+                                'host', 'port'],
+            # the server side names them after the accepted socket: accept_addr/port = local end, client_* = peer
+            'SSHServerConfig': ['last_config', 'config', 'reload', 'canonical', 'final', 'accept_addr', 'accept_port',
+                                'username', 'client_host', 'client_addr']}
+    ctor = {'SSHClientConfig': ['last_config', 'reload', 'canonical', 'final', 'local_user', 'user', 'host', 'port'],
+            'SSHServerConfig': ['last_config', 'reload', 'canonical', 'final', 'local_addr', 'local_port', 'user',
+                                'host', 'addr']}
+    bad, seen = [], set()
+    cfg = extract.get_module('config')
+    for cls, params in ctor.items():
+        got = [a.arg for a in cfg.get_function(cls + '.__init__').args.args][1:]
+        if got != params:
+            bad.append(f'{cls}.__init__ parameters are {got}, expected {params}')
+    for node in ast.walk(extract.get_module('connection').tree):
+        if isinstance(node, ast.Call) and isinstance(node.func, ast.Attribute) and node.func.attr == 'load' \
+                and isinstance(node.func.value, ast.Name) and node.func.value.id in want:
+            cls = node.func.value.id
+            seen.add(cls)
+            got = [ast.unparse(a) for a in node.args]
+            if got != want[cls] or node.keywords:
+                bad.append(f'{cls}.load called with {got}, roles are {want[cls]}')
+    bad += [f'no call of {c_}.load found in connection.py' for c_ in want if c_ not in seen]
+    return bad
+
+
 def data_lemmas():
     out = []
     for name, fn in (('C18.data#client-keyword-table-gives-every-keyword-the-handler-of-its-argument-grammar',
@@ -1222,7 +1583,10 @@ def data_lemmas():
                      ('C18.data#server-keyword-table-gives-every-keyword-the-handler-of-its-argument-grammar',
                       lambda: _handler_lemma('SSHServerConfig', SERVER_KEYWORDS, SERVER_SPECIAL)),
                      ('C18.data#percent-expanded-keywords-are-the-documented-ones', _expand_lemma),
-                     ('C18.data#block-keywords-and-verbatim-keywords', _block_lemma)):
+                     ('C18.data#block-keywords-and-verbatim-keywords', _block_lemma),
+                     ('C18.data#token-and-environment-reference-patterns-find-exactly-the-references', _regex_lemma),
+                     ('C18.data#connection.py-passes-local-and-remote-user-host-port-in-their-roles',
+                      _call_site_lemma)):
         try:
             bad = fn()
         except Exception as e:          # a table that can no longer be read is a failed check, not a crash
@@ -1236,6 +1600,5 @@ def extra_checks(tier, seed):
     from specs import ssh_config_diff
     from pyvc import extract
     n = 1500 if tier == 'thorough' else 150
-    return {'bounded': [ssh_config_diff.run(n, seed, extract.REPO), ssh_config_diff.run_expand_once(extract.REPO)]
-            + ssh_config_diff.run_fixed(extract.REPO),
+    return {'bounded': ssh_config_diff.run_all(n, seed, extract.REPO),
             'lemmas': data_lemmas()}
